@@ -147,7 +147,8 @@ class Ctx:
             p = subprocess.run(cmd, capture_output=True, text=True, timeout=timeout)
         except subprocess.TimeoutExpired:
             raise Broken("replay timeout %s" % name)
-        if p.returncode not in (0, 1, 3):
+        self._race_report(name, family, cmd, p, race)
+        if p.returncode not in (0, 1, 3) and not (race and p.returncode == 66):
             raise Broken("driver failed in %s (exit %d): %s" % (name, p.returncode, (p.stdout + p.stderr)[-2000:]))
         try:
             rep = json.loads(p.stdout.strip().splitlines()[-1])
@@ -172,6 +173,15 @@ class Ctx:
             log("%s: driver reported a hang" % name)
         return rep
 
+    def _race_report(self, name, family, cmd, p, race):
+        """A report of the Go race detector is a violation of 'without data races' (C09)."""
+        if race and "WARNING: DATA RACE" in p.stderr:
+            i = p.stderr.index("WARNING: DATA RACE")
+            self.failures.append({"family": family, "kind": "race", "payload": json.dumps({"cmd": cmd}), "site": "race",
+                                  "input": " ".join(cmd[1:4]), "expected": "no report of the race detector",
+                                  "observed": p.stderr[i:i + 1500], "stage": name, "race": True})
+            log("%s: the race detector reported a data race" % name)
+
     # ------------------------------------------------------------------ record (code -> trace) and validate
     def record(self, name, family, args, race=False, timeout=1800, env_extra=None):
         fv = self.build(race)
@@ -184,7 +194,8 @@ class Ctx:
             p = subprocess.run(cmd, capture_output=True, text=True, timeout=timeout, env=env)
         except subprocess.TimeoutExpired:
             raise Broken("recorder timeout %s" % name)
-        if p.returncode != 0:
+        self._race_report(name, family, cmd, p, race)
+        if p.returncode != 0 and not (race and p.returncode == 66):
             raise Broken("recorder failed in %s (exit %d): %s" % (name, p.returncode, (p.stdout + p.stderr)[-2000:]))
         n = sum(1 for l in open(outp, encoding="utf-8").read().split("\n") if l)
         if n == 0:
@@ -271,6 +282,17 @@ class Ctx:
     def confirm(self, f):
         """Re-execute one failing case in isolation against the freshly built driver."""
         fv = self.build(f.get("race", False))
+        if f["kind"] == "race":
+            cmd = json.loads(f["payload"])["cmd"]
+            cmd[0] = fv
+            for _ in range(3):          # a race needs the right timing: three attempts
+                try:
+                    p = subprocess.run(cmd, capture_output=True, text=True, timeout=1800)
+                except subprocess.TimeoutExpired:
+                    return False
+                if "WARNING: DATA RACE" in p.stderr:
+                    return True
+            return False
         if f["kind"] == "state":
             sf = os.path.join(self.scratch, "confirm.state")
             open(sf, "w").write(f["payload"])
